@@ -57,7 +57,7 @@ func zzEvalNode(n uint32, bits []byte, hashes []*chainhash.Hash, height, pos uin
 // ZZ_C12_extract: arbitrary (count, hash list, flag bytes).
 func ZZ_C12_extract() {
 	var numTx uint32
-	nc := vCase("numtx", 0, vParam("maxn", 4)+3)
+	nc := vCase("numtx", 0, vParam("maxn", 4)+4)
 	maxn := vParam("maxn", 4)
 	switch {
 	case nc <= maxn:
@@ -66,8 +66,12 @@ func ZZ_C12_extract() {
 		numTx = MaxTxnCount
 	case nc == maxn+2:
 		numTx = MaxTxnCount + 1
-	default:
+	case nc == maxn+3:
 		numTx = 0xffffffff
+	default:
+		// every declared count above the limit (symbolic): must be refused before anything is sized by it
+		numTx = vU32("bigcount")
+		vAssume(numTx > MaxTxnCount)
 	}
 	small := nc <= maxn
 	maxh := maxn + 1
